@@ -125,6 +125,8 @@ def check_case(ctx, pm, D, order_seed, tmpdir):
         if onfile != t1:
             problems.append("dump(path) bytes differ from dumps(): %s" % _first_diff(t1, onfile))
         problems.extend(F.diff(E_obs, obs3))
+        from rv import formats as _formats
+        problems.extend(_formats.entry_point_problems(_formats.modules(), "composeinfo", ci, t1, tmpdir))
         left = sorted(os.listdir(tmpdir))
         if left != ["composeinfo.json"]:
             problems.append("stray files next to the destination: %r" % left)
